@@ -7,6 +7,10 @@ use std::time::Instant;
 
 pub const HTTP2_CONNECTION_PREFACE: &[u8] = b"PRI * HTTP/2.0\r\n\r\nSM\r\n\r\n";
 
+/// HEADERS frame flags that change the layout of the payload (RFC 7540 section 6.2)
+const FLAG_PADDED: u8 = 0x8;
+const FLAG_PRIORITY: u8 = 0x20;
+
 #[derive(Debug, Clone, PartialEq)]
 #[repr(u8)]
 pub enum Http2FrameType {
@@ -552,29 +556,17 @@ impl<'a> Http2Parser<'a> {
         let mut scheme = None;
         let mut status = None;
 
-        let stream_frames: Vec<&Http2Frame> =
-            frames.iter().filter(|f| f.stream_id == stream_id).collect();
-
-        for frame in stream_frames {
-            match frame.frame_type {
-                Http2FrameType::Headers | Http2FrameType::Continuation => {
-                    let frame_headers = self.parse_headers_payload(&frame.payload)?;
-                    for header in frame_headers {
-                        match header.name.as_str() {
-                            ":method" => method = Some(header.value.clone().unwrap_or_default()),
-                            ":path" => path = Some(header.value.clone().unwrap_or_default()),
-                            ":authority" => {
-                                authority = Some(header.value.clone().unwrap_or_default())
-                            }
-                            ":scheme" => scheme = Some(header.value.clone().unwrap_or_default()),
-                            ":status" => {
-                                status = header.value.as_ref().and_then(|v| v.parse().ok())
-                            }
-                            _ => headers.push(header),
-                        }
-                    }
+        for block in collect_header_blocks(stream_id, frames)? {
+            let block_headers = self.parse_headers_payload(&block)?;
+            for header in block_headers {
+                match header.name.as_str() {
+                    ":method" => method = Some(header.value.clone().unwrap_or_default()),
+                    ":path" => path = Some(header.value.clone().unwrap_or_default()),
+                    ":authority" => authority = Some(header.value.clone().unwrap_or_default()),
+                    ":scheme" => scheme = Some(header.value.clone().unwrap_or_default()),
+                    ":status" => status = header.value.as_ref().and_then(|v| v.parse().ok()),
+                    _ => headers.push(header),
                 }
-                _ => {}
             }
         }
 
@@ -676,6 +668,71 @@ impl<'a> Http2Parser<'a> {
 
         cookies
     }
+}
+
+/// Header block fragment carried by a HEADERS frame payload.
+///
+/// The Pad Length octet, the five priority octets and the trailing padding are not part of the
+/// HPACK-encoded block (RFC 7540 section 6.2). Returns `None` when the payload is too short for
+/// the fields its flags announce.
+pub fn headers_block_fragment(payload: &[u8], flags: u8) -> Option<&[u8]> {
+    let padded = flags & FLAG_PADDED != 0;
+    let mut start: usize = 0;
+    if padded {
+        start += 1;
+    }
+    if flags & FLAG_PRIORITY != 0 {
+        start += 5;
+    }
+    if payload.len() < start {
+        return None;
+    }
+    let pad_len = if padded { payload[0] as usize } else { 0 };
+    if pad_len > payload.len() - start {
+        return None;
+    }
+    Some(&payload[start..payload.len() - pad_len])
+}
+
+/// Header blocks of `stream_id` in wire order.
+///
+/// A block is the fragment of a HEADERS frame followed by the payloads of the CONTINUATION
+/// frames that continue it (RFC 7540 section 6.10); it has to be HPACK-decoded as one unit.
+pub fn collect_header_blocks(
+    stream_id: u32,
+    frames: &[Http2Frame],
+) -> Result<Vec<Vec<u8>>, Http2ParseError> {
+    let mut blocks: Vec<Vec<u8>> = Vec::new();
+    let mut current: Vec<u8> = Vec::new();
+    let mut open = false;
+
+    for frame in frames {
+        if frame.stream_id == stream_id {
+            match frame.frame_type {
+                Http2FrameType::Headers => {
+                    let fragment = match headers_block_fragment(&frame.payload, frame.flags) {
+                        Some(fragment) => fragment,
+                        None => return Err(Http2ParseError::InvalidFrameLength(frame.length)),
+                    };
+                    if open {
+                        blocks.push(current);
+                    }
+                    current = fragment.to_vec();
+                    open = true;
+                }
+                Http2FrameType::Continuation => {
+                    current.extend_from_slice(&frame.payload);
+                    open = true;
+                }
+                _ => {}
+            }
+        }
+    }
+    if open {
+        blocks.push(current);
+    }
+
+    Ok(blocks)
 }
 
 pub fn is_http2_traffic(data: &[u8]) -> bool {
